@@ -1,9 +1,18 @@
-"""t_merge: regenerate the escape chain and separator of _merge_columns._join_names (C13)."""
+"""t_merge: regenerate, for C13,
+  * the escape chain and separator of _merge_columns._join_names,
+  * the row pipeline of _merge_columns (what is iterated, what is applied to every row),
+  * the two feature blocks of _validate_and_reformat_input (what precedes the merge, the test that guards it,
+    the argument it is applied to, what follows, the position in the returned tuple),
+  * how ThresholdOptimizer.fit and InterpolatedThresholder._pmf_predict / predict obtain the vector of group keys.
+Fail closed: every shape that is not recognised raises; recognised-but-different shapes are emitted as different
+tags, and props/C13.v compares the tags with the expected ones by computation."""
 import ast
 from pathlib import Path
 
 OUTPUTS = ["Gen_merge.v"]
 SRC = "fairlearn/utils/_input_validation.py"
+SRC_TO = "fairlearn/postprocessing/_threshold_optimizer.py"
+SRC_IT = "fairlearn/postprocessing/_interpolated_thresholder.py"
 
 
 def _const_str(node, consts):
@@ -26,6 +35,337 @@ def _const_str(node, consts):
 
 def _zs(s):
     return "[" + "; ".join(str(ord(c)) for c in s) + "]"
+
+
+# ---------------------------------------------------------------------------------------------
+# call sites: _validate_and_reformat_input, ThresholdOptimizer, InterpolatedThresholder
+# ---------------------------------------------------------------------------------------------
+
+def _cs(s):
+    s = " | ".join(ln.strip() for ln in s.splitlines())       # a compound statement becomes one tag
+    return '"' + s.replace('"', '""') + '"'
+
+
+def _cl(xs):
+    return "[" + ";\n     ".join(_cs(x) for x in xs) + "]"
+
+
+def _strip_doc(body):
+    if body and isinstance(body[0], ast.Expr) and isinstance(body[0].value, ast.Constant) \
+            and isinstance(body[0].value.value, str):
+        return body[1:]
+    return body
+
+
+def _names(node, name, ctx=None):
+    return [n for n in ast.walk(node) if isinstance(n, ast.Name) and n.id == name
+            and (ctx is None or isinstance(n.ctx, ctx))]
+
+
+def _fn(body, name, what):
+    f = [n for n in body if isinstance(n, ast.FunctionDef) and n.name == name]
+    if len(f) != 1:
+        raise ValueError(f"{what}: expected exactly one definition of {name}, found {len(f)}")
+    return f[0]
+
+
+def _cls(tree, name):
+    c = [n for n in tree.body if isinstance(n, ast.ClassDef) and n.name == name]
+    if len(c) != 1:
+        raise ValueError(f"class {name}: expected exactly one definition, found {len(c)}")
+    return c[0]
+
+
+def _block(v, stmts):
+    """-> (pre, cond, checked, post) of one feature block"""
+    idx = [k for k, s in enumerate(stmts) if _names(s, "_merge_columns")]
+    if not idx:
+        return [ast.unparse(s) for s in stmts], "Never", False, []
+    if len(idx) != 1:
+        raise ValueError(f"block {v}: _merge_columns is mentioned in {len(idx)} statements")
+    k = idx[0]
+    s = stmts[k]
+    want = f"{v} = _merge_columns({v})"
+    if isinstance(s, ast.If):
+        if s.orelse or len(s.body) != 1:
+            raise ValueError(f"block {v}: the merge is not the single statement of an if without else")
+        cond = "MultiColumn" if ast.unparse(s.test) == f"len({v}.shape) > 1 and {v}.shape[1] > 1" else "OtherCond"
+        checked = ast.unparse(s.body[0]) == want
+    elif isinstance(s, ast.Assign):
+        cond, checked = "Always", ast.unparse(s) == want
+    else:
+        raise ValueError(f"block {v}: unsupported statement around _merge_columns: {ast.unparse(s)[:60]}")
+    return [ast.unparse(x) for x in stmts[:k]], cond, checked, [ast.unparse(x) for x in stmts[k + 1:]]
+
+
+def _validate_blocks(tree, consts):
+    fn = _fn(tree.body, "_validate_and_reformat_input", SRC)
+    if fn.args.kwarg is None:
+        raise ValueError("_validate_and_reformat_input: no **kwargs")
+    kw = fn.args.kwarg.arg
+    body = _strip_doc(fn.body)
+    ret = body[-1]
+    if not (isinstance(ret, ast.Return) and isinstance(ret.value, ast.Tuple)
+            and all(isinstance(e, ast.Name) for e in ret.value.elts)):
+        raise ValueError("_validate_and_reformat_input: last statement is not `return (<names>)`")
+    if sum(isinstance(n, ast.Return) for n in ast.walk(fn)) != 1:
+        raise ValueError("_validate_and_reformat_input: more than one return")
+    ret_names = [e.id for e in ret.value.elts]
+    blocks = {}
+    for i, s in enumerate(body):
+        if not (isinstance(s, ast.Assign) and len(s.targets) == 1 and isinstance(s.targets[0], ast.Name)
+                and isinstance(s.value, ast.Call) and ast.unparse(s.value.func) == f"{kw}.get"):
+            continue
+        if len(s.value.args) != 1 or s.value.keywords or not isinstance(s.value.args[0], ast.Name) \
+                or s.value.args[0].id not in consts:
+            raise ValueError(f"unsupported {kw}.get(...) at line {s.lineno}")
+        v, cname = s.targets[0].id, s.value.args[0].id
+        nxt = body[i + 1]
+        if not (isinstance(nxt, ast.If) and ast.unparse(nxt.test) == f"{v} is not None"):
+            raise ValueError(f"block {v}: `{v} = {kw}.get(...)` is not followed by `if {v} is not None:`")
+        # else-branch: nothing, or `elif <flag>: raise` that does not touch v
+        if nxt.orelse:
+            e = nxt.orelse
+            if not (len(e) == 1 and isinstance(e[0], ast.If) and not e[0].orelse and len(e[0].body) == 1
+                    and isinstance(e[0].body[0], ast.Raise) and not _names(e[0].test, v)):
+                raise ValueError(f"block {v}: unsupported else branch")
+        # v is bound nowhere else in the function
+        if len(_names(fn, v, ast.Store)) != 1 + len(_names(ast.Module(body=nxt.body, type_ignores=[]), v, ast.Store)):
+            raise ValueError(f"block {v}: {v} is rebound outside its block")
+        if ret_names.count(v) != 1:
+            raise ValueError(f"block {v}: {v} is not returned exactly once")
+        if cname in blocks:
+            raise ValueError(f"two blocks read {cname}")
+        blocks[cname] = (f"{cname}={consts[cname]!r}", v, *_block(v, nxt.body), ret_names.index(v))
+    if sorted(blocks) != ["_KW_CONTROL_FEATURES", "_KW_SENSITIVE_FEATURES"]:
+        raise ValueError(f"_validate_and_reformat_input: feature blocks found: {sorted(blocks)}")
+    ncalls = len(_names(fn, "_merge_columns"))
+    return blocks, ncalls
+
+
+def _import_of(tree, name, src):
+    hits = [(n, a) for n in tree.body if isinstance(n, ast.ImportFrom) for a in n.names if (a.asname or a.name) == name]
+    if len(hits) != 1 or hits[0][1].asname is not None:
+        raise ValueError(f"{src}: {name} is not imported exactly once under its own name")
+    if _names(tree, name, ast.Store) or any(isinstance(n, (ast.FunctionDef, ast.ClassDef)) and n.name == name
+                                            for n in ast.walk(tree)):
+        raise ValueError(f"{src}: {name} is rebound")
+    n = hits[0][0]
+    return "." * n.level + (n.module or "")
+
+
+VALIDATE = "_validate_and_reformat_input"
+
+
+def _validate_call(fn, where, param="sensitive_features"):
+    """the single call of _validate_and_reformat_input in fn -> (target names, keyword passing `param`)"""
+    if param not in [a.arg for a in fn.args.args + fn.args.kwonlyargs]:
+        raise ValueError(f"{where}: no parameter {param}")
+    if _names(fn, param, ast.Store):
+        raise ValueError(f"{where}: {param} is rebound")
+    calls = [n for n in ast.walk(fn) if isinstance(n, ast.Call) and isinstance(n.func, ast.Name)
+             and n.func.id == VALIDATE]
+    if len(calls) != 1 or len(_names(fn, VALIDATE)) != 1:
+        raise ValueError(f"{where}: expected exactly one call of {VALIDATE}")
+    asg = [n for n in ast.walk(fn) if isinstance(n, ast.Assign) and n.value is calls[0]]
+    if len(asg) != 1 or len(asg[0].targets) != 1 or not isinstance(asg[0].targets[0], ast.Tuple) \
+            or not all(isinstance(e, ast.Name) for e in asg[0].targets[0].elts):
+        raise ValueError(f"{where}: the result of {VALIDATE} is not unpacked into names")
+    kws = [k.arg for k in calls[0].keywords if isinstance(k.value, ast.Name) and k.value.id == param]
+    if len(kws) != 1 or kws[0] is None or len(_names(calls[0], param)) != 1:
+        raise ValueError(f"{where}: {param} is not passed on exactly once, by keyword")
+    if any(k.arg is None for k in calls[0].keywords) or any(isinstance(a, ast.Starred) for a in calls[0].args):
+        raise ValueError(f"{where}: star arguments in the call of {VALIDATE}")
+    if [k.arg for k in calls[0].keywords].count(kws[0]) != 1:
+        raise ValueError(f"{where}: keyword {kws[0]} given twice")
+    return [e.id for e in asg[0].targets[0].elts], kws[0]
+
+
+def _is_self_attr(node, attr):
+    return isinstance(node, ast.Attribute) and isinstance(node.value, ast.Name) and node.value.id == "self" \
+        and node.attr == attr
+
+
+def _opt_method(cls, mname):
+    """_threshold_optimization_for_*: the first argument only reaches the groupby, whose keys become the dict keys"""
+    m = _fn(cls.body, mname, "ThresholdOptimizer")
+    args = [a.arg for a in m.args.args]
+    if len(args) != 4 or args[0] != "self":
+        raise ValueError(f"{mname}: unexpected signature {args}")
+    s = args[1]
+    if _names(m, s, ast.Store):
+        raise ValueError(f"{mname}: {s} is rebound")
+    loads = _names(m, s, ast.Load)
+    asg = [n for n in ast.walk(m) if isinstance(n, ast.Assign) and isinstance(n.value, ast.Call)
+           and isinstance(n.value.func, ast.Name) and n.value.func.id == "_reformat_and_group_data"]
+    if len(loads) != 1 or len(asg) != 1 or ast.unparse(asg[0].value) != \
+            f"_reformat_and_group_data({s}, {args[2]}, {args[3]})" or len(asg[0].targets) != 1 \
+            or not isinstance(asg[0].targets[0], ast.Name):
+        raise ValueError(f"{mname}: {s} is not used exactly once, as _reformat_and_group_data({s}, labels, scores)")
+    g = asg[0].targets[0].id
+    if len(_names(m, g, ast.Store)) != 1:
+        raise ValueError(f"{mname}: {g} is rebound")
+    loops = [n for n in ast.walk(m) if isinstance(n, ast.For) and isinstance(n.iter, ast.Name) and n.iter.id == g]
+    if len(loops) != 1 or len(_names(m, g, ast.Load)) != 1:
+        raise ValueError(f"{mname}: {g} is not iterated exactly once")
+    lp = loops[0]
+    if not (isinstance(lp.target, ast.Tuple) and len(lp.target.elts) == 2
+            and all(isinstance(e, ast.Name) for e in lp.target.elts)):
+        raise ValueError(f"{mname}: groupby loop target is not (key, group)")
+    k = lp.target.elts[0].id
+    if len(_names(m, k, ast.Store)) != 1 + sum(1 for n in ast.walk(m) if isinstance(n, ast.For)
+                                                  and isinstance(n.target, ast.Name) and n.target.id == k):
+        raise ValueError(f"{mname}: the group key {k} is rebound")
+    # stores into self._tradeoff_curve[...]: exactly one, inside the groupby loop, indexed by the group key
+    def sub_stores(root, pred):
+        return [n for n in ast.walk(root) if isinstance(n, ast.Subscript) and isinstance(n.ctx, ast.Store)
+                and pred(n.value)]
+    tc_all = sub_stores(m, lambda x: _is_self_attr(x, "_tradeoff_curve"))
+    tc_in = sub_stores(lp, lambda x: _is_self_attr(x, "_tradeoff_curve"))
+    if len(tc_all) != 1 or len(tc_in) != 1 or ast.unparse(tc_in[0].slice) != k:
+        raise ValueError(f"{mname}: self._tradeoff_curve is not filled exactly once, by the group key")
+    whole = [n for n in ast.walk(m) if isinstance(n, ast.Assign) and any(_is_self_attr(t, "_tradeoff_curve")
+                                                                          for t in n.targets)]
+    if len(whole) != 1 or ast.unparse(whole[0].value) != "{}":
+        raise ValueError(f"{mname}: self._tradeoff_curve is not initialised once with {{}}")
+    kl = [n for n in ast.walk(m) if isinstance(n, ast.For) and ast.unparse(n.iter) == "self._tradeoff_curve.keys()"]
+    if len(kl) != 1 or not isinstance(kl[0].target, ast.Name):
+        raise ValueError(f"{mname}: no single loop over self._tradeoff_curve.keys()")
+    k2 = kl[0].target.id
+    ret = [n for n in ast.walk(m) if isinstance(n, ast.Return)]
+    if len(ret) != 1:
+        raise ValueError(f"{mname}: expected one return")
+    r = ret[0].value
+    if not (isinstance(r, ast.Call) and isinstance(r.func, ast.Attribute) and r.func.attr == "fit"
+            and isinstance(r.func.value, ast.Call) and ast.unparse(r.func.value.func) == "InterpolatedThresholder"
+            and len(r.func.value.args) == 2 and isinstance(r.func.value.args[1], ast.Name)):
+        raise ValueError(f"{mname}: does not return InterpolatedThresholder(<estimator>, <dict>, ...).fit(...)")
+    d = r.func.value.args[1].id
+    d_all = sub_stores(m, lambda x: isinstance(x, ast.Name) and x.id == d)
+    d_in = sub_stores(kl[0], lambda x: isinstance(x, ast.Name) and x.id == d)
+    d_asg = [n for n in ast.walk(m) if isinstance(n, ast.Assign) and any(isinstance(t, ast.Name) and t.id == d
+                                                                         for t in n.targets)]
+    if len(d_all) != 1 or len(d_in) != 1 or ast.unparse(d_in[0].slice) != k2 or len(d_asg) != 1 \
+            or ast.unparse(d_asg[0].value) != "{}" or len(_names(m, d, ast.Store)) != 1:
+        raise ValueError(f"{mname}: the interpolation dict is not filled exactly once, by the key of self._tradeoff_curve")
+    return (f"{mname}: groups = _reformat_and_group_data(arg0, labels, scores); for (key, group) in groups: "
+            f"self._tradeoff_curve[key] = ...; for key in self._tradeoff_curve.keys(): interpolation_dict[key] = Bunch(...)")
+
+
+def _fit_path(repo):
+    tree = ast.parse((Path(repo) / SRC_TO).read_text())
+    mod = _import_of(tree, VALIDATE, SRC_TO)
+    cls = _cls(tree, "ThresholdOptimizer")
+    fit = _fn(cls.body, "fit", "ThresholdOptimizer")
+    names, kw = _validate_call(fit, "ThresholdOptimizer.fit")
+    use = ["ThresholdOptimizer.fit: sensitive_features is not rebound"]
+    # the vector: argument 0 of threshold_optimization_method(...)
+    tom = [n for n in ast.walk(fit) if isinstance(n, ast.Call) and isinstance(n.func, ast.Name)
+           and n.func.id == "threshold_optimization_method"]
+    if len(tom) != 1 or not tom[0].args or not isinstance(tom[0].args[0], ast.Name) or tom[0].keywords:
+        raise ValueError("ThresholdOptimizer.fit: no single positional call of threshold_optimization_method")
+    vec = tom[0].args[0].id
+    if names.count(vec) != 1 or len(_names(fit, vec, ast.Load)) != 1 or len(_names(fit, vec, ast.Store)) != 1:
+        raise ValueError(f"ThresholdOptimizer.fit: {vec} is not bound once by {VALIDATE} and used once")
+    use.append("ThresholdOptimizer.fit: the vector is used once, as argument 0 of threshold_optimization_method")
+    binds = [n for n in ast.walk(fit) if isinstance(n, ast.Assign)
+             and any(isinstance(t, ast.Name) and t.id == "threshold_optimization_method" for t in n.targets)]
+    meths = []
+    for b in binds:
+        if not (len(b.targets) == 1 and isinstance(b.value, ast.Attribute) and isinstance(b.value.value, ast.Name)
+                and b.value.value.id == "self"):
+            raise ValueError("ThresholdOptimizer.fit: threshold_optimization_method bound to something else "
+                             "than a method of self")
+        meths.append(b.value.attr)
+    if len(_names(fit, "threshold_optimization_method", ast.Store)) != len(binds) or not meths:
+        raise ValueError("ThresholdOptimizer.fit: unsupported binding of threshold_optimization_method")
+    meths = sorted(set(meths))
+    use.append("threshold_optimization_method in {" + ", ".join(meths) + "}")
+    st = [n for n in ast.walk(fit) if isinstance(n, ast.Assign) and n.value is tom[0]]
+    if len(st) != 1 or len(st[0].targets) != 1 or not _is_self_attr(st[0].targets[0], "interpolated_thresholder_"):
+        raise ValueError("ThresholdOptimizer.fit: the result is not stored in self.interpolated_thresholder_")
+    all_st = [n for n in ast.walk(cls) if isinstance(n, ast.Attribute) and isinstance(n.ctx, ast.Store)
+              and n.attr == "interpolated_thresholder_"]
+    if len(all_st) != 1:
+        raise ValueError("ThresholdOptimizer: interpolated_thresholder_ is assigned in more than one place")
+    use.append("result stored in self.interpolated_thresholder_")
+    for mname in sorted(meths, reverse=True):
+        use.append(_opt_method(cls, mname))
+    rg = _fn(tree.body, "_reformat_and_group_data", SRC_TO)
+    s = rg.args.args[0].arg
+    calls = [n for n in ast.walk(rg) if isinstance(n, ast.Call) and _names(n, s)
+             and isinstance(n.func, ast.Name)]
+    rets = [n for n in ast.walk(rg) if isinstance(n, ast.Return)]
+    if _names(rg, s, ast.Store) or len(_names(rg, s, ast.Load)) != 1 or len(calls) != 1 \
+            or calls[0].func.id != "_reformat_data_into_dict" or len(calls[0].args) != 3 or calls[0].keywords \
+            or ast.unparse(calls[0].args[2]) != s or not isinstance(calls[0].args[0], ast.Name) \
+            or ast.unparse(calls[0].args[1]) != "data_dict" or len(rets) != 1 \
+            or ast.unparse(rets[0].value) != f"pd.DataFrame(data_dict).groupby({calls[0].args[0].id})":
+        raise ValueError("_reformat_and_group_data: unexpected use of the sensitive feature vector")
+    use.append("_reformat_and_group_data: _reformat_data_into_dict(name, data_dict, arg0); "
+               "return pd.DataFrame(data_dict).groupby(name)")
+    return (mod, VALIDATE, kw, names.index(vec), use), cls
+
+
+def _predict_path(repo, to_cls):
+    use = []
+    for mname in ("predict", "_pmf_predict"):
+        m = _fn(to_cls.body, mname, "ThresholdOptimizer")
+        rets = [n for n in ast.walk(m) if isinstance(n, ast.Return)]
+        if _names(m, "sensitive_features", ast.Store) or len(_names(m, "sensitive_features", ast.Load)) != 1 \
+                or len(rets) != 1:
+            raise ValueError(f"ThresholdOptimizer.{mname}: sensitive_features is rebound or used more than once")
+        use.append(f"ThresholdOptimizer.{mname}: {ast.unparse(rets[0])}")
+    tree = ast.parse((Path(repo) / SRC_IT).read_text())
+    mod = _import_of(tree, VALIDATE, SRC_IT)
+    cls = _cls(tree, "InterpolatedThresholder")
+    init = _fn(cls.body, "__init__", "InterpolatedThresholder")
+    iargs = [a.arg for a in init.args.args]
+    sets = [n for n in ast.walk(cls) if isinstance(n, ast.Attribute) and isinstance(n.ctx, ast.Store)
+            and n.attr == "interpolation_dict"]
+    seta = [n for n in ast.walk(init) if isinstance(n, ast.Assign) and len(n.targets) == 1
+            and _is_self_attr(n.targets[0], "interpolation_dict")]
+    if len(sets) != 1 or len(seta) != 1 or len(iargs) < 3 or ast.unparse(seta[0].value) != iargs[2] \
+            or _names(init, iargs[2], ast.Store):
+        raise ValueError("InterpolatedThresholder.__init__: interpolation_dict is not stored as given (argument 2)")
+    pr = _fn(cls.body, "predict", "InterpolatedThresholder")
+    c = [n for n in ast.walk(pr) if isinstance(n, ast.Call) and _names(n.func, "self") and _names(n, "sensitive_features")]
+    if _names(pr, "sensitive_features", ast.Store) or len(_names(pr, "sensitive_features", ast.Load)) != 1 \
+            or len(c) != 1:
+        raise ValueError("InterpolatedThresholder.predict: sensitive_features is rebound or used more than once")
+    use.append(f"InterpolatedThresholder.predict: {ast.unparse(c[0])}")
+    pm = _fn(cls.body, "_pmf_predict", "InterpolatedThresholder")
+    names, kw = _validate_call(pm, "InterpolatedThresholder._pmf_predict")
+    use.append("InterpolatedThresholder._pmf_predict: sensitive_features is not rebound")
+    loops = [n for n in ast.walk(pm) if isinstance(n, ast.For)
+             and ast.unparse(n.iter) == "self.interpolation_dict.items()"]
+    if len(loops) != 1 or not (isinstance(loops[0].target, ast.Tuple) and len(loops[0].target.elts) == 2
+                               and all(isinstance(e, ast.Name) for e in loops[0].target.elts)):
+        raise ValueError("InterpolatedThresholder._pmf_predict: no single `for key, rule in "
+                         "self.interpolation_dict.items()`")
+    key = loops[0].target.elts[0].id
+    if len(_names(pm, key, ast.Store)) != 1:
+        raise ValueError(f"InterpolatedThresholder._pmf_predict: the key {key} is rebound")
+    cmps = [n for n in ast.walk(loops[0]) if isinstance(n, ast.Compare) and len(n.ops) == 1
+            and isinstance(n.ops[0], ast.Eq) and isinstance(n.left, ast.Name)
+            and isinstance(n.comparators[0], ast.Name) and n.comparators[0].id == key]
+    vecs = sorted({n.left.id for n in cmps})
+    if len(vecs) != 1 or names.count(vecs[0]) != 1:
+        raise ValueError("InterpolatedThresholder._pmf_predict: the key is not compared with one vector "
+                         f"returned by {VALIDATE}")
+    vec = vecs[0]
+    if len(_names(pm, vec, ast.Store)) != 1 or len(_names(pm, vec, ast.Load)) != len(cmps) \
+            or len(_names(pm, key, ast.Load)) != len(cmps):
+        raise ValueError(f"InterpolatedThresholder._pmf_predict: {vec} / {key} are used other than in `{vec} == {key}`")
+    use.append("InterpolatedThresholder._pmf_predict: for (key, rule) in self.interpolation_dict.items(): "
+               "every use of the vector is `vector == key`")
+    return mod, VALIDATE, kw, names.index(vec), use
+
+
+def _path_def(name, comment, p):
+    mod, fn, kw, slot, use = p
+    return (f"(* {comment} *)\nDefinition {name} : key_path :=\n  mk_path {_cs(mod)} {_cs(fn)} {_cs(kw)} {slot}%nat\n"
+            f"    {_cl(use)}.\n")
 
 
 def translate(repo: Path):
@@ -84,9 +424,39 @@ def translate(repo: Path):
     if not (isinstance(e, ast.Name) and e.id == var):
         raise ValueError("escape chain does not start at the comprehension variable")
     steps.reverse()           # innermost call is applied first
-    text = ("(* GENERATED by translators/t_merge.py from " + SRC + " -- do not edit *)\n"
-            "From Coq Require Import ZArith List.\nImport ListNotations.\nOpen Scope Z_scope.\n"
+    text = ("(* GENERATED by translators/t_merge.py from " + SRC + ", " + SRC_TO + ", " + SRC_IT
+            + " -- do not edit *)\n"
+            "From Coq Require Import ZArith List String.\nFrom FL Require Import MergeSrc.\n"
+            "Import ListNotations.\nOpen Scope Z_scope.\n"
             "Definition steps : list (Z * list Z) :=\n  ["
             + "; ".join(f"({ord(a)}, {_zs(b)})" for a, b in steps) + "].\n"
             f"Definition sep : list Z := {_zs(sep)}.\n")
+    # ---- the row pipeline of _merge_columns (every element below was matched above; emitted as parsed) ----
+    rc = body[2].value.args[0]                      # the row comprehension
+    rg = rc.generators[0]
+    blocks, ncalls = _validate_blocks(tree, consts)
+    pipeline = [f"guard: {ast.unparse(guard.test)} -> raise",
+                f"rows: {ast.unparse(rg.iter)}",
+                "row filter: " + ("none" if not rg.ifs else " and ".join(ast.unparse(i) for i in rg.ifs)),
+                f"per row: {ast.unparse(rc.elt)}",
+                "collect: np.array([...])" if isinstance(rc, ast.ListComp) else "collect: other",
+                f"names: {ast.unparse(g.iter)}",
+                "name filter: " + ("none" if not g.ifs else "some"),
+                f"per name: {var}.replace(...) chain only",
+                "join: <separator>.join([...])",
+                f"calls of _merge_columns in _validate_and_reformat_input: {ncalls}"]
+    if ast.unparse(rg.target) != "row" or jn.args.args[0].arg != "names" or var != "name" or arg != "feature_columns":
+        pipeline.append(f"names: {arg}, {ast.unparse(rg.target)}, {jn.args.args[0].arg}, {var}")
+    text += ("\n(* ---- call sites ---- *)\nOpen Scope string_scope.\n"
+             "(* _merge_columns: what is iterated and what is applied to every row *)\n"
+             f"Definition merge_pipeline : list string :=\n    {_cl(pipeline)}.\n")
+    for cname, dname in (("_KW_SENSITIVE_FEATURES", "sensitive_block"), ("_KW_CONTROL_FEATURES", "control_block")):
+        kwtag, v, pre, cond, checked, post, slot = blocks[cname]
+        text += (f"(* _validate_and_reformat_input: the block of `{v}` *)\n"
+                 f"Definition {dname} : block_src :=\n  mk_block {_cs(kwtag)}\n    {_cl(pre)}\n"
+                 f"    {cond} {'true' if checked else 'false'}\n    {_cl(post)}\n    {slot}%nat.\n")
+    fitp, to_cls = _fit_path(repo)
+    text += _path_def("fit_path", "ThresholdOptimizer.fit: where the keys of interpolation_dict come from", fitp)
+    text += _path_def("predict_path", "predict / _pmf_predict: where the vector compared with the keys comes from",
+                      _predict_path(repo, to_cls))
     return {"Gen_merge.v": text}
